@@ -323,7 +323,17 @@ impl<'a> Gen<'a> {
         }
         if self.rng.permille(p.body_gate) {
             let g = self.gate();
-            b.push(Step::AwaitGate(g));
+            if self.rng.permille(200) {
+                // select: whichever fires first; the other event source keeps a waker of this operation
+                let g2 = self.gate();
+                if g2 != g {
+                    b.push(Step::AwaitAny(g, g2));
+                } else {
+                    b.push(Step::AwaitGate(g));
+                }
+            } else {
+                b.push(Step::AwaitGate(g));
+            }
             if self.rng.permille(300) {
                 b.push(Step::Yield(1));
             }
